@@ -166,6 +166,7 @@ def endpoint : String → Option Ep
   | "q6" => some { route := [.lit (b "query")], queryShape := some 13 }
   | "json" => some { method := "POST", route := [.lit (b "json")], body := some (14, .json) }
   | "form" => some { method := "POST", route := [.lit (b "form")], body := some (15, .urlEncoded) }
+  | "formopt" => some { method := "POST", route := [.lit (b "formopt")], body := some (3, .urlEncoded) }
   | "j2" => some { method := "POST", route := [.lit (b "j2")], body := some (16, .json) }
   | "raw" => some { method := "PUT", route := [.lit (b "raw")], kind := "raw" }
   | "stream" => some { method := "PUT", route := [.lit (b "stream")], kind := "stream" }
